@@ -88,6 +88,19 @@ pub fn entry_points_value(r: &RValue, trailer: &[u8], chunk: usize, skip_from_va
     if pos != enc.len() {
         return Err(format!("LazyValue::from_reader(io) consumed {} stream bytes for a {}-byte value; enc={}", pos, enc.len(), hex(&enc)));
     }
+    // the serde entry points for the public type LazyValue: slice and stream must agree
+    let ls: LazyValue = serde_amqp::from_slice(&enc).map_err(|e| format!("from_slice::<LazyValue> failed: {e}; {}", hex(&enc)))?;
+    if ls.as_slice() != &enc[..] {
+        return Err(format!("from_slice::<LazyValue> holds {} bytes, value has {}; {}", ls.as_slice().len(), enc.len(), hex(&enc)));
+    }
+    let mut cur2 = Chunked { cur: Cursor::new(&full[..]), chunk };
+    let lr: LazyValue = serde_amqp::from_reader(&mut cur2).map_err(|e| format!("from_reader::<LazyValue> failed where from_slice::<LazyValue> succeeds: {e}; {}", hex(&enc)))?;
+    if lr != ls {
+        return Err(format!("from_reader::<LazyValue> and from_slice::<LazyValue> disagree; {}", hex(&enc)));
+    }
+    if cur2.cur.position() as usize != enc.len() {
+        return Err(format!("from_reader::<LazyValue> consumed {} stream bytes for a {}-byte value; enc={}", cur2.cur.position(), enc.len(), hex(&enc)));
+    }
     // untyped tree conversions
     let tv = serde_amqp::to_value(&v).map_err(|e| format!("to_value failed: {e}"))?;
     if tv != v {
